@@ -226,6 +226,19 @@ class Models:
         return OpaqueV(f"{mod}.{nm}")
 
     def global_expr(self, module, name, expr, node):
+        # NAME = lru_cache(...)(f) / cache(f): the function f, memoised
+        if isinstance(expr, ast.Call) and len(expr.args) == 1 and isinstance(expr.args[0], ast.Name) and not expr.keywords:
+            deco = expr.func.func if isinstance(expr.func, ast.Call) else expr.func
+            dn = deco.attr if isinstance(deco, ast.Attribute) else (deco.id if isinstance(deco, ast.Name) else "")
+            from .interp import _MEMO_WORDS
+            if any(w == dn or (w != "cache" and w in dn) for w in _MEMO_WORDS):
+                tgt = self.prog.resolve_global(module, expr.args[0].id)
+                if tgt and tgt[0] == "func":
+                    import copy as _copy
+                    fi = _copy.copy(tgt[1])
+                    fi.name = name          # (its own memo table)
+                    fi._memoised = True
+                    return PyFuncV(fi)
         # directories and aliases, recognised by the shape of their initialiser
         if isinstance(expr, ast.Dict) and not expr.keys:
             g = GlobalMapV(name)
@@ -595,6 +608,7 @@ class Models:
                 # assigns when the class is created - derived below)
                 lv = ListV(None, tag=f"converters({self.st.tfind(obj.tid)})", opaque_elem=ConvV())
                 lv.owner = obj
+                lv.ci = self.converter_list_class()
                 return lv
             if attr == "_unit_map":
                 if getattr(t, "under_creation", False):
@@ -902,6 +916,25 @@ class Models:
         if isinstance(obj, GlobalMapV):
             def mapcall(args, kwargs, n, g=obj, attr=attr):
                 self.st.effects.append(("mapcall", g, attr, args, self.where(n)))
+                if attr in ("values", "keys", "items") and getattr(g, "owner", None) is not None and \
+                        not getattr(g, "inherited", False) and isinstance(g.owner, ClsV):
+                    # the units of the type that exist on this path (there may be others: what is computed from the
+                    # listing is computed from at least these)
+                    st_ = self.st
+                    tid_ = st_.tfind(g.owner.tid)
+                    seen_, out_ = set(), []
+                    for uid_ in list(st_.units):
+                        r_ = st_.ufind(uid_)
+                        if r_ in seen_ or st_.same_type(st_.units[r_].tid, tid_) is not True:
+                            continue
+                        seen_.add(r_)
+                        k_ = StrV(None, f"symbol({r_})")
+                        k_.nonempty = True
+                        u_ = UnitV(r_)
+                        out_.append(u_ if attr == "values" else (k_ if attr == "keys" else TupleV([k_, u_])))
+                    lv_ = ListV(out_, tag=f"{g.name}.{attr}")
+                    lv_.partial = True
+                    return lv_
                 if attr in ("values", "keys", "items"):
                     return ListV(None, tag=f"{g.name}.{attr}")
                 if attr == "register_item":
@@ -1099,6 +1132,11 @@ class Models:
             obj.writes.append((attr, v, self.where(node)))
             return
         if isinstance(obj, ObjV):
+            setter = self.prog.lookup_setter(obj.ci, attr) if obj.ci is not None else None
+            if setter is not None and not (self.I.frames and self.I.frames[-1].fi is setter):
+                self.st.effects.pop()
+                self.I.call_function(setter, [obj, v], {}, node)      # a property with a setter: its code runs
+                return
             obj.fields[attr] = v
             return
         if isinstance(obj, ClsV):
@@ -1325,7 +1363,47 @@ class Models:
                 self.st.equate(atom, RF.const(v.length))
         return v.length
 
+    def list_class_of(self, ci) -> bool:
+        """Is the package class a subclass of list (without a constructor of its own)?"""
+        if ci is None or self.prog.lookup(ci, "__init__") is not None or self.prog.lookup(ci, "__new__") is not None:
+            return False
+        for c in self.prog.mro(ci):
+            for b in c.base_names:
+                if b.split("[")[0].split(".")[-1] in ("list", "List"):
+                    return True
+        return False
+
+    def converter_list_class(self):
+        """The class of the object the metaclass initialises the converter registry with, if it is a list subclass
+        of the package (the abstract registry then has that class's methods too)."""
+        c = getattr(self.prog, "_conv_list_cls", False)
+        if c is False:
+            c = None
+            nm = self.conv_attr()
+            meta = self.prog.classes.get("QuantityMeta")
+            if nm and meta is not None:
+                for f in meta.methods.values():
+                    for n in ast.walk(f.node):
+                        tgt = val = None
+                        if isinstance(n, ast.Assign) and len(n.targets) == 1:
+                            tgt, val = n.targets[0], n.value
+                        elif isinstance(n, ast.AnnAssign) and n.value is not None:
+                            tgt, val = n.target, n.value
+                        if isinstance(tgt, ast.Attribute) and tgt.attr == nm and isinstance(val, ast.Call) and \
+                                isinstance(val.func, ast.Name) and not val.args:
+                            r = self.prog.resolve_global(f.module, val.func.id)
+                            if r and r[0] == "class" and self.list_class_of(r[1]):
+                                c = r[1]
+            self.prog._conv_list_cls = c
+        return c
+
     def list_attr(self, v: ListV, attr, node):
+        ci = getattr(v, "ci", None)
+        if ci is not None:
+            fi = self.prog.lookup(ci, attr)
+            if fi is not None and fi.node is not None:
+                return self.bind_func(fi, v, node)
+
         def method(args, kwargs, n):
             if attr == "pop" and len(args) == 1 and isinstance(args[0], Num) and self.st.norm(args[0].rf).is_const() \
                     and self.st.norm(args[0].rf).const_value() == -1:
@@ -1657,7 +1735,7 @@ class Models:
             return o
         if isinstance(key, TupleV):
             # operation cache: hit == recomputation by the cache discipline (rule R17.1); Engine A follows the miss
-            if self.cache_hits:
+            if self.cache_hits and (self.cache_hits is True or g.name in self.cache_hits):
                 c = I.choose(2, f"cache@{getattr(node, 'lineno', '?')}", ["miss", "hit"])
                 if c == 1:
                     o = OpaqueV("cache-hit")
